@@ -47,8 +47,8 @@ def run(ctx):
     gen = [("OpenApiCat", "Gen_OpenApi_cat.cfg", dict(workers=1)),
            ("OpenApiGen", "Gen_OpenApi.cfg" if q else "Gen_OpenApi_deep.cfg", dict(workers=6, timeout=1200)),
            ("OpenApiGen", "Gen_OpenApi_flat.cfg", dict(workers=6, timeout=1200)),
-           ("OpenApiGen", "Gen_OpenApi_sim.cfg", dict(workers=4, simulate="num=%d" % (60 if q else 2500), depth=16, name="gen-sim", timeout=1500)),
-           ("OpenApiGen", "Gen_OpenApi_sim2.cfg", dict(workers=4, simulate="num=%d" % (40 if q else 1500), depth=14, name="gen-sim2", timeout=1500))]
+           ("OpenApiGen", "Gen_OpenApi_sim.cfg", dict(workers=4, simulate="num=%d" % (60 if q else 1800), depth=16, name="gen-sim", timeout=1500)),
+           ("OpenApiGen", "Gen_OpenApi_sim2.cfg", dict(workers=4, simulate="num=%d" % (40 if q else 1000), depth=14, name="gen-sim2", timeout=1500))]
     cap = 2500 if q else None
 
     def sample(scns):
@@ -61,7 +61,7 @@ def run(ctx):
         ctx.extra["exhaustive_scenarios_generated"] = len(rot)
         return rest + rot[:cap]
 
-    obs, verdicts = standard_pipeline(ctx, sub="openapi", mc=mc, gen=gen, trace=TRACE, random_n=400 if q else 20000, nontrivial=nontrivial,
+    obs, verdicts = standard_pipeline(ctx, sub="openapi", mc=mc, gen=gen, trace=TRACE, random_n=400 if q else 15000, nontrivial=nontrivial,
                                       dedupe_key=lambda s: json.dumps(s["apps"], sort_keys=True), post_gen=sample, chunk=3000, jobs=12)
     # one VERDICT per violation class of a line: every class is classified on its own (standard_pipeline kept only the first)
     ctx.violations = []
